@@ -29,6 +29,7 @@ type aqP struct {
 	Prefix    string // "" std | default | odd
 	Decl      string
 	ID        string // "" ok | special
+	IDRaw     *string
 	SPCert    string // "" one | none
 }
 
@@ -171,6 +172,9 @@ func aqBuild(p aqP) (*world.World, *http.Request, *aqTruth) {
 	}
 	if p.ID == "special" {
 		o.ID = "_aq-ü&\"'<>"
+	}
+	if p.IDRaw != nil {
+		o.ID = *p.IDRaw
 	}
 	t.QueryID = o.ID
 	t.User, t.SubjectKnown, t.SubjectName = alice, true, "alice"
